@@ -278,6 +278,17 @@ Proof.
     eexists; reflexivity.
 Qed.
 
+Lemma place_mesh_ext mo mati s : canon (st_b s) ->
+  exists ext, st_b (snd (place_mesh mo mati s)) = of_chunks (b_chunks (st_b s) ++ ext).
+Proof.
+  intros Hc. unfold place_mesh. destruct (find_mesh _ _).
+  - exists []. rewrite app_nil_r. apply canon_of_chunks, Hc.
+  - destruct (mesh_data_b (mo_mesh mo) s Hc) as [E|(_ & E)].
+    + destruct (mesh_data (mo_mesh mo) s) as [[ai b] wr]. cbn [fst snd st_b] in *. subst b.
+      exists []. rewrite app_nil_r. apply canon_of_chunks, Hc.
+    + rewrite E. cbn [snd st_b]. eexists. reflexivity.
+Qed.
+
 Lemma place_mesh_facts mo mati s : canon (st_b s) ->
   let r := place_mesh mo mati s in
   (exists mi, fst r = Some mi /\ In ((me_ptr (mo_mesh mo), mati), mi) (st_mesh_tab (snd r))) /\ next s (snd r) /\
@@ -285,8 +296,7 @@ Lemma place_mesh_facts mo mati s : canon (st_b s) ->
   st_nodes (snd r) = st_nodes s /\ st_scene (snd r) = st_scene s /\ st_lights (snd r) = st_lights s.
 Proof.
   intros Hc. cbv zeta.
-  pose proof (place_mesh_b (fun _ => True) (fun _ => True)
-                (fun _ _ => proj2 (Forall_forall _ _) (fun _ _ => I)) mo mati s I Hc) as (ext & _ & Eb).
+  pose proof (place_mesh_ext mo mati s Hc) as (ext & Eb).
   unfold place_mesh in *. destruct (find_mesh _ _) as [i|] eqn:Ef.
   - cbn [fst snd]. split; [exists i; split; [reflexivity|apply find_mesh_In, Ef]|]. repeat split; apply next_refl.
   - destruct (mesh_data (mo_mesh mo) s) as [[ai b] wr]. cbn [fst snd st_b st_mesh_tab st_mat_tab st_nodes st_scene st_lights] in *.
